@@ -515,8 +515,10 @@ def _parse_cbmc_json(out):
                 key = r.get("property", "?")
                 desc = r.get("description", "")
                 results[key] = (r.get("status"), desc)
-                if "trace" in r:
-                    traces[key] = r["trace"]
+                if "trace" in r and not desc.startswith("COVER:"):
+                    # keep only the compact (lhs, value) list the replay records need: raw traces of hundreds of jobs (above all the
+                    # traces of the must-fail vacuity guards) added up to > 60 GB in one thorough run
+                    traces[key] = trace_inputs(r["trace"])
         if "messageText" in item:
             msgs.append(item["messageText"])
         if "cProverStatus" in item:
@@ -731,6 +733,8 @@ def load_known_findings():
 
 def trace_inputs(trace, limit=400):
     """Compact list of the nondeterministic inputs / assignments of a cbmc trace."""
+    if trace and isinstance(trace[0], (list, tuple)):
+        return list(trace)[-limit:]          # already compact
     out = []
     for st in trace:
         if st.get("stepType") == "assignment" and not st.get("hidden", False):
